@@ -157,12 +157,15 @@ def main(inp, outp):
                    f"{method}: errors {errs} for steps {hs}: ratio {ratio:.2f}, expected about {want}", data)
         for method in ("rkf54", "dopri54"):
             for tol in (1e-1, 1e-3):
-                got = run(method, 60, case["t"], tol=tol)
-                nsteps = max(1.0, abs(case["t"]) / 60.0)
-                err = np.linalg.norm(got[:3] - ref[:3])
-                res["evaluations"] += 1
-                clause("adaptive methods stay within a small multiple of their tolerance per step", err <= 20 * tol * nsteps + 1e-3, f"rk/tolerance[{method}]",
-                       f"{method} tol {tol}: error {err:.4g} m after {nsteps:.0f} steps", data)
+                # forward and backward targets, nominal steps of 60 s and 120 s (the step control has to work in both directions)
+                for tsec, hh in ((case["t"], 60), (-case["t"], 60), (case["t"], 120), (-case["t"], 120)):
+                    got = run(method, hh, tsec, tol=tol)
+                    refx = np.asarray(Orbit(kep, DATE, "keplerian", "EME2000", "Kepler").propagate(DATE + timedelta(seconds=tsec)).copy(form="cartesian"), float)
+                    nsteps = max(1.0, abs(tsec) / float(hh))
+                    err = np.linalg.norm(got[:3] - refx[:3])
+                    res["evaluations"] += 1
+                    clause("adaptive methods stay within a small multiple of their tolerance per step", err <= 20 * tol * nsteps + 1e-3, f"rk/tolerance[{method}]",
+                           f"{method} tol {tol}, nominal step {hh} s, target {tsec} s: error {err:.4g} m after {nsteps:.0f} nominal steps", data)
         # adaptive methods, tight tolerances, judged on the raw integration nodes: every accepted step (also the ones that follow
         # a rejected trial) adds at most a small multiple of the tolerance to the error against the analytical solution
         kep_e = [kep[0], max(kep[1], 0.15)] + kep[2:]
